@@ -26,25 +26,30 @@ Alts(t, b) == { [table |-> t, bad |-> b], [table |-> <<>>, bad |-> TRUE] }
 PickRest ==
   /\ phase = "rest" /\ phase' = "done"
   /\ \E dir \in {"consume", "produce"}, bad \in BOOLEAN, skip \in 0..(MaxRecs + 1), reuse \in BOOLEAN, pre \in 0..(MaxRecs + 1) :
-     \E kind \in (IF dir = "consume" THEN DstKinds ELSE SrcKinds), alt \in Alts(cfg, bad), tail \in BOOLEAN :
+     \E kind \in (IF dir = "consume" THEN DstKinds ELSE SrcKinds), alt \in Alts(cfg, bad), tail \in BOOLEAN, stale \in BOOLEAN,
+        whole \in { [table |-> cfg, bad |-> bad] } \cup { [table |-> <<r>> \o cfg, bad |-> bad] : r \in Records } :
        /\ tail => (bad /\ dir = "produce")
+       /\ stale => (dir = "produce" /\ kind = "csvreader")
+       /\ (dir = "consume" \/ kind \notin {"seekbytes", "seekstrings"}) => whole = [table |-> cfg, bad |-> bad]
        /\ (kind # "precords" \/ dir # "consume") => pre = 0
        /\ (dir = "produce" /\ kind \in {"records", "precords"}) => ~bad      \* a record table cannot be malformed
-       /\ (dir = "consume" \/ kind # "binm") => alt = [table |-> cfg, bad |-> bad]
-       /\ cfg' = [dir |-> dir, kind |-> kind, table |-> cfg, bad |-> bad, alt |-> alt, skip |-> skip, reuse |-> reuse, pre |-> pre, tail |-> tail]
+       /\ (dir = "consume" \/ (kind # "binm" /\ ~stale)) => alt = [table |-> cfg, bad |-> bad]
+       /\ cfg' = [dir |-> dir, kind |-> kind, table |-> cfg, bad |-> bad, alt |-> alt, skip |-> skip, reuse |-> reuse, pre |-> pre, tail |-> tail,
+                  stale |-> stale, whole |-> whole]
        /\ out' = Model(cfg')
 
 (* one codec value used for two or three calls: first input = the table picked, then small ones / the same again *)
 SmallTables == { t \in Tables : Len(t) <= 1 }
 PickReuse ==
   /\ phase = "rest" /\ phase' = "reused"
-  /\ \E dir \in {"consume", "produce"}, skip \in 0..(MaxRecs + 2), bad1 \in BOOLEAN, bad2 \in BOOLEAN, n \in {2, 3} :
+  /\ \E dir \in {"consume", "produce"}, skip \in 0..(MaxRecs + 2), bad1 \in BOOLEAN, bad2 \in BOOLEAN, n \in {2, 3}, sv \in BOOLEAN :
      \E kind \in (IF dir = "consume" THEN DstSupported ELSE SrcSupported), t2 \in SmallTables \cup {cfg} :
        /\ (dir = "produce" /\ kind \in {"records", "precords"}) => (~bad1 /\ ~bad2)
+       /\ sv => (dir = "consume" /\ kind = "precords" /\ ~bad1 /\ ~bad2)
        /\ LET calls == IF n = 2 THEN <<[table |-> cfg, bad |-> bad1], [table |-> t2, bad |-> bad2]>>
                        ELSE <<[table |-> cfg, bad |-> bad1], [table |-> t2, bad |-> bad2], [table |-> cfg, bad |-> FALSE]>>
           IN cfg' = [dir |-> dir, kind |-> kind, table |-> <<>>, bad |-> FALSE, alt |-> [table |-> <<>>, bad |-> FALSE],
-                     skip |-> skip, reuse |-> FALSE, pre |-> 0, tail |-> FALSE, calls |-> calls]
+                     skip |-> skip, reuse |-> FALSE, pre |-> 0, tail |-> FALSE, calls |-> calls, samevar |-> sv]
        /\ out' = ReuseModel(cfg')
 
 Next == PickTable \/ PickRest \/ PickReuse
